@@ -160,6 +160,25 @@ def step_fresh(ctx):
         for e in new:
             if e not in explicit and not _isint(e):
                 out.append(("auto-id-type", f"{ctx.op}: automatic id {e!r} is not an integer", tags))
+        # an explicit ID offered more than once *within one call*: the first entry takes it, the later ones are refused
+        # (an edge added earlier in the same call is an existing edge)
+        if not ctx.out.raised and method in ("H.add_edges_from",) and len(explicit) < sum(1 for a in adds if a != "a"):
+            try:
+                arg = eval(ctx.op[len(method):])
+                entries = list(arg) if not isinstance(arg, dict) else []
+                first = {}
+                for ent in entries:
+                    if isinstance(ent, tuple) and len(ent) >= 2 and not isinstance(ent[1], dict) and ent[1] not in first:
+                        first[ent[1]] = ent[0]
+                for i_, m_ in first.items():
+                    if i_ in prem or i_ not in postm:
+                        continue
+                    want = (frozenset(m_[0]), frozenset(m_[1])) if pre["cls"] == "DiHypergraph" else frozenset(m_)
+                    if postm[i_] != want:
+                        out.append(("overwrite", f"{ctx.op}: ID {i_!r} was given first to {want!r}; after the call it holds "
+                                    f"{postm[i_]!r} (a later entry with the same ID replaced it)", tags))
+            except Exception:  # noqa: BLE001
+                pass
         all_taken = bool(adds) and all(a != "a" and a[1] in prem for a in adds)
         if all_taken and len(adds) > 1 and not ctx.out.raised:
             if not ctx.out.warns:
